@@ -244,6 +244,19 @@ pub fn expect_meta_table() -> String {
     }
     s.join(" ")
 }
+/// is_valid() vs the three accessors on the same object, for texts made of blanks, newlines and content
+pub fn valid_consistency(mask: u32) -> String {
+    let mut m = Metadata::new();
+    let vals = ["x", " \n", "", " ", "\n", " a ", "\t"];
+    for (bit, e) in [(0, MetadataEntry::Comment), (1, MetadataEntry::Contents), (2, MetadataEntry::Desc)] {
+        let k = ((mask >> (3 * bit)) & 7) as usize;
+        if k < vals.len() {
+            let _ = m.read_metadata(e, vals[k]);
+        }
+    }
+    let by_accessors = !m.comment().is_empty() && !m.contents().is_empty() && !m.desc().is_empty();
+    format!("is_valid={} accessors_nonempty={}", m.is_valid().is_ok(), by_accessors)
+}
 pub fn real_is_valid(mask: u32) -> bool {
     let mut m = Metadata::new();
     let vals = ["x", " \n", ""];
@@ -268,6 +281,14 @@ pub fn search_c20(r: &mut Rng, iters: usize) -> bool {
         let (e, a) = (expect_is_valid(mask), real_is_valid(mask));
         if e != a {
             witness("meta_is_valid", &[("mask", mask.to_string())], &e.to_string(), &a.to_string());
+            return false;
+        }
+    }
+    for mask in 0..512u32 {
+        let a = valid_consistency(mask);
+        let agree = a == "is_valid=true accessors_nonempty=true" || a == "is_valid=false accessors_nonempty=false";
+        if !agree {
+            witness("meta_valid_consistency", &[("mask", mask.to_string())], "is_valid() == all three texts non-empty", &a);
             return false;
         }
     }
